@@ -24,10 +24,10 @@ type LStep struct {
 	IncD    int    `json:",omitempty"`
 	SleepMs int    `json:",omitempty"`
 	// leave
-	TimeoutMs int      `json:",omitempty"`
-	RaceN     int      `json:",omitempty"` // accusations released at the instant of the call
-	RaceKind  string   `json:",omitempty"`
-	RaceOffUs []int    `json:",omitempty"` // arrival offsets relative to the call, microseconds
+	TimeoutMs int    `json:",omitempty"`
+	RaceN     int    `json:",omitempty"` // accusations released at the instant of the call
+	RaceKind  string `json:",omitempty"`
+	RaceOffUs []int  `json:",omitempty"` // arrival offsets relative to the call, microseconds
 }
 
 type LPlan struct {
